@@ -823,6 +823,7 @@ def run_tree(case, ctx):
         cls.add("less_usual_feature_names")
     stmts = case["stmts"] if case["kind"] == "seq" else [case]
     other = other_before = None
+    cp = env_cp = None
     if case["kind"] == "seq" and (n + len(stmts)) % 3 == 0 and n >= 1:
         # two tracks related by a public derivation whose result owns its observations (time-span extraction over
         # the whole range): the statements run on one of them, the other must stay exactly as it was
@@ -862,6 +863,24 @@ def run_tree(case, ctx):
             if len(stmts) > 1:
                 info["statements_so_far"] = list(texts)
             return violated(info, sig, nt, sorted(cls))
+        if k == 0 and cp is None and case["kind"] == "seq" and (n + len(stmts)) % 3 == 1:
+            # two independent tracks used in turn: a copy() is taken AFTER the first statement was evaluated (the
+            # original has read its features by then); the remaining statements run on the original; the copy is
+            # evaluated at the end and must answer with ITS values (those at the time of the copy)
+            real = tr._tr if isinstance(tr, gen.NameProxy) else tr
+            c_ = M.call(real.copy)
+            if not M.is_raised(c_):
+                cp = gen.NameProxy(c_, tr._nm) if isinstance(tr, gen.NameProxy) else c_
+                env_cp = {kk: list(vv) for kk, vv in env.items()}
+    if cp is not None:
+        cls.add("copy_taken_after_the_first_statement")
+        ast_ = ["bin", "-", ["bin", "+", ["var", "a"], ["bin", "*", ["var", "b"], ["var", "s"]]], ["var", "x"]]
+        v2, i2 = judge_stmt(cp, env_cp, n, {"form": "expr", "ast": ast_, "via": "operate"}, ctx, cls)
+        if v2 == "violated":
+            i2["history"] = ("a copy() taken after the first statement, evaluated after the remaining statements ran "
+                             "on the original")
+            i2["statements_on_the_original"] = list(texts)
+            return violated(i2, sig, True, sorted(cls))
     if other is not None:
         ctx.monitor("related_track.untouched")
         after_o = M.call(state, other)
@@ -1005,7 +1024,7 @@ def classify(case, witness):
 # floors for the call-history workloads added in session 3 (a run in which they were silently skipped is inconclusive)
 _floors_base = floors
 _FLOORS_EXTRA = {'classes': {'nan_in_minmax': 500, 'repeated_function_term': 1000, 'externals_dictionary': 500, 'realistic_magnitudes': 800, 'related_track_must_stay_untouched': 1000,
-                             'less_usual_feature_names': 5000, 'track_of_hundreds_of_observations': 300}}
+                             'less_usual_feature_names': 5000, 'copy_taken_after_the_first_statement': 800, 'track_of_hundreds_of_observations': 300}}
 
 
 def floors(tier):
